@@ -75,7 +75,8 @@ def run(ctx):
             prefix = rng.choice([[], ["; a comment", ""], ["/* multi", "line", "comment */"], ["", "", "   "], ["{", "nop ; x", "}"],
                                  [".macro unused_zq(a) {", ".db a", "}"],
                                  # characters that str.splitlines() treats as line breaks but the scanner does not
-                                 ["nop ; end of page \x0c next page"], ["; a\u2028b \x85 c"], [".ascii 'x\x0bx\x1cy'"], ["; v\x1dt\x1e\u2029"]])
+                                 ["nop ; end of page \x0c next page"], ["; a\u2028b \x85 c"], [".ascii 'x\x0bx\x1cy'"], ["; v\x1dt\x1e\u2029"],
+                                 ["/* page \x0c break", "second \u2028 line \x85 */"], ["/* one line \x0b\x1c\x1d\x1e\u2029 */"], ["nop", "/* a", "b\x0c */"]])
             lines = prefix + lines
             positions = list(range(len(prefix), len(lines) + 1))   # after the prefix (never inside its comment)
             if tier == "quick":
@@ -216,6 +217,32 @@ def run(ctx):
                 s3.violate(inp, (how, name, pos, stmt), rep, "the file API does not locate the error (or reports another kind)")
             elif not str(rep[1]).endswith(name) or rep[2] != pos or rep[4] != stmt or (how == "scan" and rep[3] != col):
                 s3.violate(inp, (name, pos, col if how == "scan" else None, stmt), rep[1:], "file / line / column / quoted text reported through the file API differ from the statement in the file")
+        # several included files with identical text: an error is located in the file the failing statement came from
+        s5 = core.Stream("S4-identical-includes", "two or three included files with byte-identical text (copies at different paths), one of them included where a symbol it uses is defined and another where it is not (or the second copy made erroneous afterwards, in a second assembly of the same process): the reported file is the one the failing statement came from, with its line and text")
+        for i in range(10 if tier == "quick" else 80):
+            body = ["nop"] * rng.randrange(0, 4) + [".dw shared_zq"] + ["rts"]
+            pos = body.index(".dw shared_zq")
+            text = "\n".join(body) + "\n"
+            names = [f"copy_a_{i}.s", f"copy_b_{i}.s"]
+            impl.write_files(run_.tmp, {n: text for n in names}, None)
+            if i % 2 == 0:
+                # one program: first copy inside a block that defines the symbol, second copy where nothing defines it
+                src = f"*=0x008000\n{{\nshared_zq = 1\n.include '{names[0]}'\n}}\n.include '{names[1]}'\n"
+                r = impl.assemble(src, "low_rom", cwd=run_.tmp)
+            else:
+                # two assemblies: the first uses copy a successfully, the second fails inside copy b
+                impl.assemble(f"*=0x008000\nshared_zq = 1\n.include '{names[0]}'\n", "low_rom", cwd=run_.tmp)
+                src = f"*=0x008000\nnop\n.include '{names[1]}'\n"
+                r = impl.assemble(src, "low_rom", cwd=run_.tmp)
+            rep = real_report(r)
+            s5.cases += 1
+            s5.nontrivial.add((i % 2, pos))
+            inp = {"src": src, names[0]: text, names[1]: text, "history": "copy a was included (successfully) before" }
+            if rep is None:
+                s5.violate(inp, "an undefined-symbol error located in " + names[1], "assembled", "an undefined symbol in an included file is not reported")
+            elif rep[0] != "node" or rep[1] != names[1] or rep[2] != pos or rep[4] != ".dw shared_zq":
+                s5.violate(inp, ("node", names[1], pos, ".dw shared_zq"), rep, "the error names another file / line than the included file the failing statement came from")
+        s5.sample({"shape": "{ shared = 1 / .include 'copy_a.s' } / .include 'copy_b.s'   (identical texts)"})
         # the command line with -D definitions: locations still refer to the lines of the user's file
         s4 = core.Stream("S4-cli-defines", "an erroneous statement at a known line of a file assembled by the x816 command line with 0..3 -D NAME=VALUE definitions (used or unused by the program), both output formats: the reported file, zero-based line, column and quoted text are those of the statement in the user's file, whatever was defined on the command line")
         for i in range(10 if tier == "quick" else 120):
@@ -244,6 +271,6 @@ def run(ctx):
             elif not str(rep[1]).endswith(name) or rep[2] != pos or rep[4] != stmt or (how == "scan" and rep[3] != col):
                 s4.violate(inp, (name, pos, col if how == "scan" else None, stmt), rep[1:], "file / line / column / quoted text reported by the command line differ from the statement in the user's file")
         s4.sample({"command": "x816 cli_zq_0.s -D dz0=1 dz1=2"})
-        return [s, s2, s3, s4]
+        return [s, s2, s3, s4, s5]
     finally:
         run_.close()
